@@ -1,7 +1,7 @@
 (* Proofs/Matchers.v (codec) - protocol matchers: monotone on prefixes; which matchers can accept the same bytes;
    SelectStreamFactoryProtocol is independent of the map iteration order when at most one matcher accepts. *)
 From Coq Require Import List NArith Lia ZifyBool ZifyNat ZifyN Bool Permutation.
-From MV Require Import Lib.Bytes Gen.ProtoConsts Model.Matchers.
+From MV Require Import Lib.Bytes Gen.ProtoConsts Gen.CodecSrc Model.Matchers.
 Import ListNotations.
 Open Scope N_scope.
 
@@ -45,7 +45,7 @@ Proof.
 Qed.
 Lemma thrift_match_mono b e r : r <> MAgain -> thrift_match b = r -> thrift_match (b ++ e) = r.
 Proof.
-  unfold thrift_match. intros Hr. destruct (blen b <? thrift_MessageLenSize + thrift_MagicLen) eqn:E; [congruence|].
+  unfold thrift_match, thrift_match_sw. intros Hr. destruct (blen b <? thrift_MessageLenSize + thrift_MagicLen) eqn:E; [congruence|].
   rewrite blen_app. replace (blen b + blen e <? thrift_MessageLenSize + thrift_MagicLen) with false by lia.
   rewrite !byte_at_app by (unfold thrift_MessageLenSize, thrift_MagicLen in *; lia). auto.
 Qed.
@@ -158,33 +158,49 @@ Proof.
   unfold byte_at. change (N.to_nat 0) with 0%nat. change (N.to_nat 1) with 1%nat. cbn [nth]. lia.
 Qed.
 
-(* Two different matchers accept the same (well-formed) bytes only if one of them is dubbo-thrift, whose magic sits
-   at offset 4..5 where the other protocols carry free fields. *)
-Theorem two_successes_involve_thrift : forall b p q, wf_bytes b -> p <> q ->
-  matcher p b = MSuccess -> matcher q b = MSuccess -> p = PThrift \/ q = PThrift.
+(* the repaired dubbo-thrift matcher (first byte of the length prefix zero, magic at 4..5) *)
+Lemma thrift_success b : thrift_match b = MSuccess -> byte_at b 0 = 0 /\ byte_at b 4 = 218.
 Proof.
-  intros b p q Hw Hne Hp Hq.
-  destruct p, q; try congruence; try (now left); try (now right); cbn [matcher] in Hp, Hq;
+  unfold thrift_match, thrift_match_sw. change thrift_match_first_zero with true.
+  destruct (blen b <? _); [discriminate|]. cbn [andb].
+  destruct (byte_at b 0 =? 0) eqn:E0; cbn [negb]; [|discriminate].
+  destruct (byte_at b 4 =? thrift_Magic0) eqn:E4; cbn [andb]; [|discriminate].
+  intros _. unfold thrift_Magic0 in E4. lia.
+Qed.
+Lemma tars_success4 b : tars_match b = MSuccess -> byte_at b 4 = 16.
+Proof.
+  unfold tars_match. destruct (blen b <? _); [discriminate|].
+  destruct (byte_at b tars_IVersionHeaderIdx =? 16) eqn:E; cbn [andb]; [|discriminate].
+  intros _. unfold tars_IVersionHeaderIdx in E. lia.
+Qed.
+
+(* EXCLUSIVITY: no two different matchers accept the same (well-formed) bytes *)
+Theorem matchers_exclusive : forall b p q, wf_bytes b ->
+  matcher p b = MSuccess -> matcher q b = MSuccess -> p = q.
+Proof.
+  intros b p q Hw Hp Hq.
+  destruct p, q; try reflexivity; exfalso; cbn [matcher] in Hp, Hq;
+    try (pose proof (tars_success4 _ Hp)); try (pose proof (tars_success4 _ Hq));
     repeat match goal with
     | H : bolt_match _ _ = MSuccess |- _ => apply bolt_success in H
     | H : dubbo_match _ = MSuccess |- _ => apply dubbo_success in H
+    | H : thrift_match _ = MSuccess |- _ => apply thrift_success in H; destruct H as [H ?]
     | H : tars_match _ = MSuccess |- _ => apply (tars_success _ Hw) in H
     | H : http1_match _ = MSuccess |- _ => apply http1_success in H; destruct H as [H ?]
     | H : http2_match _ = MSuccess |- _ => apply http2_success in H; destruct H as [H ?]
-    end; exfalso; unfold bolt_ProtocolCode, boltv2_ProtocolCode in *; cbn [In] in *;
+    end; unfold bolt_ProtocolCode, boltv2_ProtocolCode in *; cbn [In] in *;
     try lia;
     try (repeat match goal with H : _ \/ _ |- _ => destruct H end; try lia; try contradiction);
     try (match goal with H : byte_at b 0 = 80 -> _, H0 : byte_at b 0 = 80 |- _ => specialize (H H0); cbn [In] in H end;
          repeat match goal with H : _ \/ _ |- _ => destruct H end; try lia; try contradiction).
 Qed.
 
-(* when dubbo-thrift also accepts: exactly when bytes 4 and 5 are its magic *)
-Lemma thrift_success_iff b : thrift_match b = MSuccess <-> 6 <= blen b /\ byte_at b 4 = 218 /\ byte_at b 5 = 188.
-Proof.
-  unfold thrift_match, thrift_MessageLenSize, thrift_MagicLen, thrift_Magic0, thrift_Magic1. split.
-  - destruct (blen b <? 4 + 2) eqn:E; [discriminate|]. destruct (_ && _) eqn:E2; [|discriminate]. intros _. lia.
-  - intros [H1 [H2 H3]]. replace (blen b <? 4 + 2) with false by lia. rewrite H2, H3. reflexivity.
-Qed.
+(* the matcher before the repair (no check of the first byte) accepted a bolt frame carrying 0xda 0xbc at offset 4..5 *)
+Lemma unrepaired_thrift_collides :
+  bolt_match bolt_ProtocolCode [1;1;0;1;218; 188;0;0;7; 1; 0;0;0;100; 0;0; 0;0; 0;0;0;0] = MSuccess /\
+  thrift_match_sw false [1;1;0;1;218; 188;0;0;7; 1; 0;0;0;100; 0;0; 0;0; 0;0;0;0] = MSuccess /\
+  thrift_match [1;1;0;1;218; 188;0;0;7; 1; 0;0;0;100; 0;0; 0;0; 0;0;0;0] = MFailed.
+Proof. vm_compute. repeat split; reflexivity. Qed.
 
 (* ---- SelectStreamFactoryProtocol and the map iteration order ------------------------------------------- *)
 Definition at_most_one (b : bytes) : Prop :=
@@ -240,11 +256,14 @@ Proof.
   - rewrite He in Hs. destruct (_ || _); discriminate.
 Qed.
 
-(* full exclusivity does not hold: a bolt request whose version byte is 0xda and whose request id starts with 0xbc
-   is accepted by the bolt matcher and by the dubbo-thrift matcher, and the result of the selection then depends on
-   the iteration order of the factory map *)
-Definition collide_frame : bytes := [1;1;0;1;218; 188;0;0;7; 1; 0;0;0;100; 0;0; 0;0; 0;0;0;0].
-Lemma exclusivity_refuted :
-  matcher PBolt collide_frame = MSuccess /\ matcher PThrift collide_frame = MSuccess /\
-  select [PBolt; PThrift] collide_frame <> select [PThrift; PBolt] collide_frame.
-Proof. vm_compute. repeat split; congruence. Qed.
+Lemma wf_at_most_one b : wf_bytes b -> at_most_one b.
+Proof. intros Hw p q. now apply matchers_exclusive. Qed.
+
+(* hence, for well-formed bytes: the selection does not depend on the iteration order of the factory map and a protocol
+   chosen on a first read is the protocol chosen on every longer first read *)
+Theorem select_order_independent_wf : forall b order order', wf_bytes b -> Permutation order order' ->
+  select order b = select order' b.
+Proof. intros b o o' Hw Hp. apply select_order_independent; [exact Hp|now apply wf_at_most_one]. Qed.
+Theorem select_prefix_stable_wf : forall b e order p, wf_bytes (b ++ e) ->
+  select order b = SelProto p -> select order (b ++ e) = SelProto p.
+Proof. intros b e o p Hw. apply select_prefix_stable. now apply wf_at_most_one. Qed.
